@@ -149,10 +149,11 @@ theorem step_fullFDerived (O : Ops μ ρ) (K : Nat) (st : State μ ρ) (op : Op 
     · exact fullFDerived_of_none O K _ rfl
     · exact h
   | randomizeF drawn ns p =>
-    simp only [step, doRandomizeF]
-    rcases setP_cases O K (clearTx Cfg.fixed st) p with ⟨q, e⟩ | e <;> rw [e]
+    simp only [step]
+    rcases randomizeF_cases O K st drawn ns p with ⟨q, e⟩ | e <;> rw [e]
     · exact fullFDerived_of_none O K _ rfl
-    · exact fullFDerived_of_none O K _ rfl
+    · exact h
+  | setInit a => exact h
   | setPrecoders f fullF p =>
     cases fullF with
     | some X => simp [Op.installsFullF] at hi
@@ -161,16 +162,17 @@ theorem step_fullFDerived (O : Ops μ ρ) (K : Nat) (st : State μ ρ) (op : Op 
       | none => exact h
       | some F => exact fullFDerived_of_none O K _ rfl
   | setFilters wH w =>
-    simp only [step, doSetFilters]
-    cases wH <;> cases w <;> exact fullFDerived_congr O K st _ h rfl rfl rfl
+    simp only [step]
+    rcases setFilters_cases st wH w with e | e <;> rw [e]
+    · exact h
+    · exact fullFDerived_congr O K st _ h rfl rfl rfl
   | solve cf ns p sol =>
     simp only [Op.installsFullF, Option.isSome_eq_false_iff, Option.isNone_iff_eq_none] at hi
-    simp only [step, doSolve]
-    split
+    simp only [step]
+    rcases solve_cases O K st cf ns p sol with e | e | ⟨q, e⟩ <;> rw [e]
     · exact h
-    · rcases setP_cases O K { st with ns := some (ns.expand K) } p with ⟨q, e⟩ | e <;> rw [e]
-      · exact fullFDerived_of_none O K _ hi
-      · exact fullFDerived_congr O K st _ h rfl rfl rfl
+    · exact h
+    · exact fullFDerived_of_none O K _ hi
   | clear => exact fullFDerived_of_none O K _ rfl
   | readF => exact h
   | readFullF => exact readFullF_fullFDerived O K st h
@@ -212,22 +214,22 @@ theorem step_resets (O : Ops μ ρ) (K : Nat) (st : State μ ρ) (op : Op μ ρ)
     · rfl
     · simp [outOf] at hok
   | randomizeF drawn ns p =>
-    simp only [step, doRandomizeF]
-    rcases setP_cases O K (clearTx Cfg.fixed st) p with ⟨q, e⟩ | e <;> rw [e] <;> rfl
+    simp only [step] at hok ⊢
+    rcases randomizeF_cases O K st drawn ns p with ⟨q, e⟩ | e <;> rw [e] at hok ⊢
+    · rfl
+    · simp at hok
   | setPrecoders f fullF p =>
     cases f <;> cases fullF <;> simp [Op.resetsFullF] at hr
     rfl
   | solve cf ns p sol =>
     simp only [Op.resetsFullF, Option.isNone_iff_eq_none] at hr
-    simp only [step, doSolve] at hok ⊢
-    split at hok
+    simp only [step] at hok ⊢
+    rcases solve_cases O K st cf ns p sol with e | e | ⟨q, e⟩ <;> rw [e] at hok ⊢
     · simp at hok
-    · rename_i hc
-      simp only [hc]
-      rcases setP_cases O K { st with ns := some (ns.expand K) } p with ⟨q, e⟩ | e <;> rw [e] at hok ⊢
-      · exact hr
-      · simp at hok
+    · simp at hok
+    · exact hr
   | clear => rfl
+  | setInit a => simp [Op.resetsFullF] at hr
   | setFilters wH w => simp [Op.resetsFullF] at hr
   | readF => simp [Op.resetsFullF] at hr
   | readFullF => simp [Op.resetsFullF] at hr
@@ -264,31 +266,31 @@ theorem step_nsOK (O : Ops μ ρ) (K : Nat) (st : State μ ρ) (op : Op μ ρ)
     simp only [step] at hF ⊢
     rw [f.2.2.2]; exact h F (f.2.2.1 ▸ hF)
   | randomizeF drawn ns p =>
-    simp only [step, doRandomizeF]
-    rcases setP_cases O K (clearTx Cfg.fixed st) p with ⟨q, e⟩ | e <;> rw [e]
+    simp only [step]
+    rcases randomizeF_cases O K st drawn ns p with ⟨q, e⟩ | e <;> rw [e]
     · intro F hF
       simp only [Option.some.injEq] at hF
       subst hF
       simp only [Op.shapeOK] at hop
       simp [hop]
-    · intro F hF
-      simp [clearTx, Cfg.fixed] at hF
+    · exact h
+  | setInit a => exact h
   | setPrecoders f fullF p =>
     simp only [step, doSetPrecoders]
     cases f <;> cases fullF <;> first | exact h | (intro F hF; simp at hF; subst hF; simp)
   | setFilters wH w =>
-    simp only [step, doSetFilters]
-    cases wH <;> cases w <;> exact h
+    simp only [step]
+    rcases setFilters_cases st wH w with e | e <;> rw [e] <;> exact h
   | solve cf ns p sol =>
-    simp only [step, doSolve]
-    split
+    simp only [step]
+    rcases solve_cases O K st cf ns p sol with e | e | ⟨q, e⟩ <;> rw [e]
     · exact h
-    · obtain ⟨q, e⟩ := setP_valid O K { st with ns := some (ns.expand K) } p hop.2
-      rw [e]
-      intro F hF
+    · exact h
+    · intro F hF
       simp only [Option.some.injEq] at hF
       subst hF
-      simp [hop.1]
+      simp only [Op.shapeOK] at hop
+      simp [hop]
   | clear => intro F hF; simp [step, clearRx, clearTx, Cfg.fixed] at hF
   | readF => exact h
   | readFullF =>
@@ -326,5 +328,68 @@ theorem run_nsOK (O : Ops μ ρ) (K : Nat) :
   | op :: ops, st, hs, h =>
     run_nsOK O K ops _ (fun o ho => hs o (List.mem_cons_of_mem _ ho))
       (step_nsOK O K st op (hs op List.mem_cons_self) h)
+
+/-! ### rejected calls -/
+
+/-- the operation is a call that modifies the object (not a getter) -/
+def Op.isMutator : Op μ ρ → Bool
+  | .setP _ => true
+  | .randomizeF _ _ _ => true
+  | .setPrecoders _ _ _ => true
+  | .setFilters _ _ => true
+  | .solve _ _ _ _ => true
+  | .clear => true
+  | .setInit _ => true
+  | _ => false
+
+/-- a mutator that raises leaves every attribute exactly as it was -/
+theorem step_rejected_unchanged (O : Ops μ ρ) (K : Nat) (st : State μ ρ) (op : Op μ ρ)
+    (hm : op.isMutator = true) (e : PyErr) (he : (step Cfg.fixed O K st op).2 = .err e) :
+    (step Cfg.fixed O K st op).1 = st := by
+  cases op with
+  | setP v =>
+    simp only [step] at he ⊢
+    rcases setP_cases O K st v with ⟨p, h⟩ | h <;> rw [h] at he ⊢
+    · simp [outOf] at he
+  | randomizeF drawn ns p =>
+    simp only [step] at he ⊢
+    rcases randomizeF_cases O K st drawn ns p with ⟨q, h⟩ | h <;> rw [h] at he ⊢
+    · simp at he
+  | setPrecoders f fullF p =>
+    cases f <;> cases fullF <;> first | rfl | (simp [step, doSetPrecoders] at he)
+  | setFilters wH w =>
+    simp only [step] at he ⊢
+    rcases setFilters_cases st wH w with h | h <;> rw [h] at he ⊢
+    · simp at he
+  | solve cf ns p sol =>
+    simp only [step] at he ⊢
+    rcases solve_cases O K st cf ns p sol with h | h | ⟨q, h⟩ <;> rw [h] at he ⊢
+    · simp at he
+  | clear => simp [step] at he
+  | setInit a => rfl
+  | readF => simp [Op.isMutator] at hm
+  | readFullF => simp [Op.isMutator] at hm
+  | readW => simp [Op.isMutator] at hm
+  | readWH => simp [Op.isMutator] at hm
+  | readFullWH => simp [Op.isMutator] at hm
+  | readFullW => simp [Op.isMutator] at hm
+  | readNs => simp [Op.isMutator] at hm
+  | readP => simp [Op.isMutator] at hm
+
+/-- a history with a rejected mutator in the middle ends in the same state, and produces the same
+    later outputs, as the history without it -/
+theorem run_skip_rejected (O : Ops μ ρ) (K : Nat) (pre post : List (Op μ ρ)) (op : Op μ ρ)
+    (hm : op.isMutator = true) (e : PyErr)
+    (he : (step Cfg.fixed O K (reach Cfg.fixed O K pre) op).2 = .err e) :
+    reach Cfg.fixed O K (pre ++ op :: post) = reach Cfg.fixed O K (pre ++ post)
+    ∧ (run Cfg.fixed O K (reach Cfg.fixed O K (pre ++ [op])) post).2
+        = (run Cfg.fixed O K (reach Cfg.fixed O K pre) post).2 := by
+  have h := step_rejected_unchanged O K (reach Cfg.fixed O K pre) op hm e he
+  have h1 : reach Cfg.fixed O K (pre ++ [op]) = reach Cfg.fixed O K pre := by
+    simp only [reach, run_append, run]; exact h
+  refine ⟨?_, by rw [h1]⟩
+  simp only [reach, run_append, run]
+  rw [show (step Cfg.fixed O K (run Cfg.fixed O K (State.init μ ρ) pre).1 op).1
+        = (run Cfg.fixed O K (State.init μ ρ) pre).1 from h]
 
 end PyPhysim.C10
